@@ -155,7 +155,7 @@ def judge(e, src, out, setting):
 
 
 # ---- document generator -----------------------------------------------------------------------------------------------------
-def gen_document(e, L, one_paragraph=False, commas=False, rich=True, odd_ws=False):
+def gen_document(e, L, one_paragraph=False, commas=False, rich=True, odd_ws=False, blank_cont=False):
     nl = e.choose('L', L) + 1
     text = []; prev = 'blank'; kinds = []; fi = 0; ci = 0; have_field = False
     for i in range(nl):
@@ -171,6 +171,8 @@ def gen_document(e, L, one_paragraph=False, commas=False, rich=True, odd_ws=Fals
             sp = [[32], [], [32, 32]][e.choose('sp', 3 if rich else 2)] if fi == 1 else [32]
             if not v and sp == [32, 32]: sp = [32]
             text += o(name) + [58] + sp + v + [10]
+        elif k == 'cont' and blank_cont and e.choose('bc', 2):
+            text += [32] + ([9] if e.choose('bct', 2) else []) + [10]          # a continuation line of whitespace only (a blank value line)
         elif k == 'cont':
             # with a formatter: the value line may begin with a form feed (Unicode whitespace, but value text for deb822)
             ff = [12] if (odd_ws and e.choose('ff', 2)) else []
@@ -191,7 +193,7 @@ class C07(Harness):
     fuel = 900000
     bounds = {'quick': {'lines': 3, 'indents': [2, 0], 'maxlens': [None, 6], 'control_lines': True},
               'thorough': {'lines': 4, 'indents': [1, 2, 3, 0], 'maxlens': [None, 6, 80], 'control_lines': True}}
-    assumptions = ['documents of 1..L lines, each a field (names from the fixed file order B A D A C E, so unsorted and with a duplicate), a continuation line, a unique comment line, or a blank line (single or double; in the quick tier double blank lines and two blanks after the colon only in the plain-settings cases); value lines are one symbolic lower-case letter, in the identity-formatter cases optionally preceded by a form feed on continuation lines (the first field may have an empty first line, i.e. be empty or start on the next line) (the first field "x, y" in the comma-formatter cases); final newline optional; 0-2 blanks after the colon of the first field',
+    assumptions = ['documents of 1..L lines, each a field (names from the fixed file order B A D A C E, so unsorted and with a duplicate), a continuation line, a unique comment line, or a blank line (the blank-cont cases also allow a continuation line of whitespace only) (single or double; in the quick tier double blank lines and two blanks after the colon only in the plain-settings cases); value lines are one symbolic lower-case letter, in the identity-formatter cases optionally preceded by a form feed on continuation lines (the first field may have an empty first line, i.e. be empty or start on the next line) (the first field "x, y" in the comma-formatter cases); final newline optional; 0-2 blanks after the colon of the first field',
                    'settings (quick: 4 of the 12 comparator/formatter combinations at document level and 3 of 6 at paragraph level, thorough: all): indentation Spaces(n) for the listed n or FieldNameLength; immediate_empty_line both; max_line_length_one_liner None / small / large; entry comparator none / by field name; paragraph comparator none / by first field name; value formatter none / identity / "split at commas, one piece per line"',
                    'levels (the paragraph level starts with a field - comments in front of the first field belong to the document - and applies the second pass to the returned paragraph): Deb822::wrap_and_sort with a paragraph closure calling Paragraph::wrap_and_sort; Deb822::wrap_and_sort without a paragraph closure; Paragraph::wrap_and_sort on single-paragraph texts; Control::wrap_and_sort on control files with Source / Package paragraphs, an Uploaders list and a relation field',
                    'comment lines inside a multi-line value are outside the domain (C03)']
@@ -211,6 +213,9 @@ class C07(Harness):
                            'name': '%s:%s:%s:%s' % (level, se, sp, fm), 'order': 1})
         # one more line, plain settings only: room for two comments after the last paragraph, a comment between two fields of the second paragraph, ...
         cs.append({'level': 'doc', 'sort_entries': None, 'sort_paragraphs': None, 'formatter': None, 'L': b['lines'] + 1, 'indents': [2], 'maxlens': [None], 'rich': False, 'fixed_imm': False, 'name': 'doc-long', 'order': 1})
+        # whitespace-only continuation lines (blank value lines) anywhere in a value
+        cs.append({'level': 'paragraph', 'sort_entries': None, 'sort_paragraphs': None, 'formatter': None, 'L': b['lines'], 'indents': b['indents'], 'maxlens': [None], 'rich': False, 'blank_cont': True, 'name': 'paragraph-blank-cont', 'order': 1})
+        if tier != 'quick': cs.append({'level': 'doc', 'sort_entries': 'key', 'sort_paragraphs': None, 'formatter': 'identity', 'L': b['lines'], 'indents': [2], 'maxlens': [None], 'rich': False, 'blank_cont': True, 'name': 'doc-blank-cont', 'order': 1})
         cs.append({'level': 'doc-plain', 'sort_entries': None, 'sort_paragraphs': 'first', 'formatter': None, 'L': b['lines'] + (0 if tier == 'quick' else 1), 'indents': [2], 'maxlens': [None], 'name': 'doc-plain', 'order': 0})
         cs.append({'level': 'control', 'sort_entries': None, 'sort_paragraphs': 'control', 'formatter': 'control', 'L': 0, 'indents': b['indents'], 'maxlens': b['maxlens'], 'name': 'control', 'order': 2})
         return cs
@@ -287,7 +292,7 @@ class C07(Harness):
         st = {'indent': case['indents'][e.choose('indent', len(case['indents']))], 'immediate': (bool(e.choose('imm', 2)) if case.get('fixed_imm') is None else case['fixed_imm']), 'maxlen': case['maxlens'][e.choose('maxlen', len(case['maxlens']))],
               'sort_entries': case['sort_entries'], 'sort_paragraphs': case['sort_paragraphs'], 'formatter': case['formatter']}
         if case['level'] == 'control': text, meta = self.control_text(e)
-        else: text, kinds = gen_document(e, case['L'], one_paragraph=(case['level'] == 'paragraph'), commas=(case['formatter'] == 'comma-lines'), rich=case.get('rich', True), odd_ws=(case['formatter'] == 'identity'))
+        else: text, kinds = gen_document(e, case['L'], one_paragraph=(case['level'] == 'paragraph'), commas=(case['formatter'] == 'comma-lines'), rich=case.get('rich', True), odd_ws=(case['formatter'] == 'identity'), blank_cont=case.get('blank_cont', False))
         st['reformats'] = case['level'] != 'doc-plain'
         e.inputs.update(s=Str(text), level=case['level'], setting=st)
         r1 = self.one_pass(e, case, st, text)
